@@ -451,7 +451,19 @@ def run(ctx):
     okr = len(ers) == 1 and itr is not None and nf(call_args(ers[0])[0]) == itr['name']
     if okr:
         rl = [(nf(r[0]), r[1], nf(r[2])) for r in [relation(n_, pol) for n_, pol in atoms(path_facts(ers[0]))] if r]
-        okr = any(op == '==' and ('.fd' in a or '.fd' in b) for a, op, b in rl) and any(op == '!=' and ('end()' in a or 'end()' in b) for a, op, b in rl)
+        eq_fd = any(op == '==' and ('.fd' in a or '.fd' in b) for a, op, b in rl)
+        if not eq_fd and cr:
+            # the binary-search idiom: after it = lower_bound(.., key, less), `!less(key, *it)` is equivalence
+            lb_args = call_args(cr[0])
+            if len(lb_args) == 4:
+                keyc, lessc = nf(lb_args[2]), nf(lb_args[3])
+                for n_, pol in atoms(path_facts(ers[0])):
+                    n0 = strip(n_)
+                    if pol is False and n0.get('kind') in ('CXXOperatorCallExpr', 'CallExpr'):
+                        ks_ = kids(n0)
+                        if n0.get('kind') == 'CXXOperatorCallExpr' and len(ks_) == 4 and nf(ks_[1]) == lessc and nf(ks_[2]) == keyc and nf(ks_[3]) in ('*%s' % itr['name'], '(*%s)' % itr['name'], '%s.operator*()' % itr['name']):
+                            eq_fd = True
+        okr = eq_fd and any(op == '!=' and ('end()' in a or 'end()' in b) for a, op, b in rl)
     ctx.check(okr, R, 'remove|erase-found-slot', ers[0] if ers else rem, 'erases the slot whose fd equals the argument', 'Poll::remove does not erase exactly the found slot under `it != end && it->fd == fd`')
     cl = [c for c in calls_named(body_of(rem), ('close',))]
     ctx.check(len(cl) == 1 and any((ref_decl(n_) or {}).get('name') == 'close_fd' and pol for n_, pol in atoms(path_facts(cl[0]))) and any(a is enclosing(ers[0], ('CompoundStmt',)) for a in ancestors(cl[0])), R, 'remove|close-flag', cl[0] if cl else rem, 'the descriptor is closed only on request and only when it was registered', 'close handling in Poll::remove changed')
